@@ -44,6 +44,8 @@ def changed(before, after):
 
 
 def doc_matches(val, want, nmonths, row=None):
+    if want.startswith("row1p:"):
+        return row is not None and abs(float(val) - (1.0 + float(row[want[6:]]))) < 1e-12
     if want.startswith("row:"):
         return row is not None and abs(float(val) - 100.0 * float(row[want[4:]])) < 1e-9
     if want == "N":
@@ -138,13 +140,14 @@ def main():
     # ---- 2. dispatch: one family corrupted at a time
     from harness_presets_snapshot import BASE_COUNTRY, BASE_GLOBAL  # written by the driver next to the cases file
     sr = ScenarioRunner()
-    for scale, base, cd in (("country", BASE_COUNTRY, rows["ARG"]), ("country", BASE_COUNTRY, rows["AUS"]), ("global", BASE_GLOBAL, None)):
+    for scale, base, cd in (("country", BASE_COUNTRY, rows["ARG"]), ("country", BASE_COUNTRY, rows["AUS"]), ("country", BASE_COUNTRY, rows["JPN"]),
+                            ("country", BASE_COUNTRY, rows["CAN"]), ("country", BASE_COUNTRY, rows["RUS"]), ("global", BASE_GLOBAL, None)):
         with contextlib.redirect_stdout(io.StringIO()):
             c_base, _, _ = sr.set_depending_on_option(copy.deepcopy(base), country_data=cd)
         for case in tables["cases"]:
             f, v = case["f"], case["v"]
-            if cd is rows["AUS"] and f != "waste":
-                continue  # (a second data row for the family whose documented values are read from the row)
+            if cd is not None and cd is not rows["ARG"] and f not in ("waste", "crop_disruption", "grasses"):
+                continue  # (further data rows for the families whose documented values are read from the row)
             opts = copy.deepcopy(base)
             if v == "__missing__":
                 opts.pop(f, None)
